@@ -558,7 +558,13 @@ def _chop(frame: Subframe, time: sc.Variable, close_to_open: bool) -> Subframe |
         if inside_i != inside_j:
             # Intersection
             t = (time - frame.time[i]) / (frame.time[j] - frame.time[i])
-            v = (1 - t) * frame.wavelength[i] + t * frame.wavelength[j]
+            if frame.wavelength[i] == frame.wavelength[j]:
+                # An edge of constant wavelength is cut at exactly that wavelength.
+                # (1 - t) * w + t * w can differ from w by one ulp, which would make
+                # the subframe irregular and Frame.subbounds raise.
+                v = frame.wavelength[i]
+            else:
+                v = (1 - t) * frame.wavelength[i] + t * frame.wavelength[j]
             output.append((time, v))
     if not output:
         return None
